@@ -107,6 +107,18 @@ func newOperator(expr parser.Expr, storage *engstore.SelectorPool, opts *query.O
 			return function.NewHistogramOperator(model.NewVectorPool(stepsBatch), e.Args, nextOperators, stepsBatch)
 		}
 
+		// timestamp() returns the timestamp of the samples a selector selects. Step
+		// vectors only carry the evaluation time, so like in the Prometheus engine
+		// this case needs a selector that delivers the sample timestamps.
+		if e.Func.Name == "timestamp" {
+			if next, ok, err := newTimestampSelector(e.Args[0], storage, opts, hints); ok {
+				if err != nil {
+					return nil, err
+				}
+				return function.NewFunctionOperator(e, function.SampleTimestamp, []model.VectorOperator{next}, stepsBatch, opts)
+			}
+		}
+
 		// TODO(saswatamcode): Tracked in https://github.com/thanos-community/promql-engine/issues/23
 		// Based on the category we can create an apt query plan.
 		call, err := function.NewFunctionCall(e.Func)
@@ -277,6 +289,41 @@ func newOperator(expr parser.Expr, storage *engstore.SelectorPool, opts *query.O
 	}
 }
 
+// newTimestampSelector builds the operand of timestamp(arg) if arg is a
+// selector, possibly in parentheses or marked as step invariant.
+func newTimestampSelector(arg parser.Expr, selectorPool *engstore.SelectorPool, opts *query.Options, hints storage.SelectHints) (model.VectorOperator, bool, error) {
+	for {
+		switch e := arg.(type) {
+		case *parser.ParenExpr:
+			arg = e.Expr
+			continue
+		case *parser.StepInvariantExpr:
+			next, ok, err := newTimestampSelector(e.Expr, selectorPool, opts.WithEndTime(opts.Start), hints)
+			if !ok || err != nil {
+				return nil, ok, err
+			}
+			op, err := step_invariant.NewStepInvariantOperator(model.NewVectorPool(stepsBatch), next, e.Expr, opts, stepsBatch)
+			return op, true, err
+		case *parser.VectorSelector:
+			start, end := getTimeRangesForVectorSelector(e, opts, 0)
+			hints.Start = start
+			hints.End = end
+			selector := selectorPool.GetSelector(start, end, opts.Step.Milliseconds(), e.LabelMatchers, hints)
+			op, err := newShardedSelector(selector, opts, e.Offset, scan.NewTimestampSelector)
+			return op, true, err
+		case *logicalplan.FilteredSelector:
+			start, end := getTimeRangesForVectorSelector(e.VectorSelector, opts, 0)
+			hints.Start = start
+			hints.End = end
+			selector := selectorPool.GetFilteredSelector(start, end, opts.Step.Milliseconds(), e.LabelMatchers, e.Filters, hints)
+			op, err := newShardedSelector(selector, opts, e.Offset, scan.NewTimestampSelector)
+			return op, true, err
+		default:
+			return nil, false, nil
+		}
+	}
+}
+
 func unpackVectorSelector(t *parser.MatrixSelector) (*parser.VectorSelector, []*labels.Matcher, error) {
 	switch t := t.VectorSelector.(type) {
 	case *parser.VectorSelector:
@@ -289,6 +336,12 @@ func unpackVectorSelector(t *parser.MatrixSelector) (*parser.VectorSelector, []*
 }
 
 func newShardedVectorSelector(selector engstore.SeriesSelector, opts *query.Options, offset time.Duration) (model.VectorOperator, error) {
+	return newShardedSelector(selector, opts, offset, scan.NewVectorSelector)
+}
+
+type newSelectorFunc func(pool *model.VectorPool, selector engstore.SeriesSelector, opts *query.Options, offset time.Duration, shard, numShards int) model.VectorOperator
+
+func newShardedSelector(selector engstore.SeriesSelector, opts *query.Options, offset time.Duration, newSelector newSelectorFunc) (model.VectorOperator, error) {
 	numShards := runtime.GOMAXPROCS(0) / 2
 	if numShards < 1 {
 		numShards = 1
@@ -296,7 +349,7 @@ func newShardedVectorSelector(selector engstore.SeriesSelector, opts *query.Opti
 	operators := make([]model.VectorOperator, 0, numShards)
 	for i := 0; i < numShards; i++ {
 		operator := exchange.NewConcurrent(
-			scan.NewVectorSelector(
+			newSelector(
 				model.NewVectorPool(stepsBatch), selector, opts, offset, i, numShards), 2)
 		operators = append(operators, operator)
 	}
